@@ -106,15 +106,8 @@ where
   fn close_internal(&self) {
     // Drop logic is now just the close logic.
     // The drop impl will call this.
-    let pinned_map = self.dispatcher.subscriptions.pin();
-    for (_topic, list_arc) in pinned_map.iter() {
-      let subscribers_snapshot = list_arc.reader.enter();
-      for mailbox_weak in subscribers_snapshot.iter() {
-        if let Some(mailbox_strong) = mailbox_weak.upgrade() {
-          mailbox_strong.disconnect();
-        }
-      }
-    }
+    // Only the LAST sender handle to go away disconnects the receivers.
+    self.dispatcher.release_sender();
   }
 
   /// Converts this synchronous `TopicSender` into an `AsyncTopicSender`.
@@ -135,6 +128,7 @@ where
   T: Send + Clone + 'static,
 {
   fn clone(&self) -> Self {
+    self.dispatcher.sender_count.fetch_add(1, Ordering::Relaxed);
     Self {
       dispatcher: self.dispatcher.clone(),
       closed: AtomicBool::new(false),
@@ -208,10 +202,7 @@ where
   /// - `Err(RecvErrorTimeout::Disconnected)` if the channel is disconnected.
   pub fn recv_timeout(&self, timeout: Duration) -> Result<(K, T), RecvErrorTimeout> {
     if self.closed.load(Ordering::Relaxed) {
-      return self
-        .consumer
-        .try_recv()
-        .map_err(|_| RecvErrorTimeout::Disconnected);
+      return Err(RecvErrorTimeout::Disconnected);
     }
     self.consumer.recv_timeout_sync(timeout)
   }
@@ -309,12 +300,15 @@ where
 
   fn close_internal(&self) {
     if let Some(dispatcher) = self.dispatcher.upgrade() {
-      let topics_to_unsubscribe: Vec<K> = self.subscriptions.lock().drain().collect();
+      // `unsubscribe` consults the local set, so it must still hold the topics.
+      let topics_to_unsubscribe: Vec<K> = self.subscriptions.lock().iter().cloned().collect();
       for topic in topics_to_unsubscribe {
         self.unsubscribe(&topic);
       }
       dispatcher.receiver_count.fetch_sub(1, Ordering::Relaxed);
     }
+    // A closed handle rejects further receives (and holds on to nothing).
+    self.producer_mailbox.close_by_consumer();
   }
 
   pub fn capacity(&self) -> usize {
@@ -371,6 +365,8 @@ where
         subscriptions: Arc::new(Mutex::new(HashSet::new())),
         closed: AtomicBool::new(false),
       };
+
+      dispatcher.register_mailbox(&new_receiver.producer_mailbox);
 
       // Now subscribe to each topic. `subscribe` will populate the new receiver's
       // subscription set and register it with the dispatcher. No nested locks.
